@@ -17,7 +17,7 @@ from collections import Counter
 
 PROPERTY = "C14"
 ROOT = os.path.dirname(os.path.dirname(os.path.abspath(__file__)))
-REPLAYS = os.path.join(ROOT, "replays")
+REPLAYS = os.environ.get("CHMPY_VERIF_REPLAYS") or os.path.join(ROOT, "replays")
 FINDINGS = os.path.join(ROOT, "findings")
 EVIDENCE = os.path.join(ROOT, "evidence", "C14.json")
 KNOWN = os.path.join(ROOT, "known_findings.json")
@@ -54,6 +54,8 @@ def run_one(stratum, seed, index):
         return gen.random_run(seed, index)
     if stratum == "template":
         return gen.template_run(seed, index)
+    if stratum == "inject":
+        return gen.inject_template_run(seed, index)
     if stratum.startswith("sweep"):
         return gen.sweep_run(int(stratum[5:]), index)
     raise ValueError(stratum)
@@ -434,6 +436,7 @@ def quick_plan(seed, args):
     n_random = args.random_runs if args.random_runs is not None else 1200
     return [
         ("template", list(range(gen.N_TEMPLATES))),
+        ("inject", list(range(gen.N_INJECT_TEMPLATES))),
         ("random", list(range(n_random))),
     ]
 
